@@ -415,7 +415,14 @@ class VProc:
                 self.real_fns[short] = f
                 if "_tty_lock" in f.__code__.co_names:
                     TRACED[f.__code__] = ("sync", load_offsets(f.__code__))
-        TRACED[mod._process_start_wrapper.__code__] = ("start", load_offsets(mod._process_start_wrapper.__code__))
+        sc = mod._process_start_wrapper.__code__
+        offs = dict(load_offsets(sc))
+        # a re-binding of the global made while the thread holds NO terminal lock is a step of its own
+        # (never the case in the code the model mirrors: there the store is part of `sw`, under the lock)
+        for ins in dis.get_instructions(sc):
+            if ins.opname == "STORE_GLOBAL" and ins.argval == "_tty_lock":
+                offs[ins.offset] = "store"
+        TRACED[sc] = ("start", offs)
 
 
 def probe_body():
@@ -614,6 +621,11 @@ class Th(threading.Thread):
             pass
 
     def _at_load(self, kind, k):
+        if k == "store":
+            if not self.stack:
+                self.gate(("adv",))
+                self.event = "publish-unlocked"
+            return
         if kind == "sync":
             if k == 1:
                 if self.call_consumed:
